@@ -2554,8 +2554,11 @@ class Env(cabc.MutableMapping):
         Note! If env variable wasn't explicitly set (e.g. the value has default value in ``Xettings``)
         it will be not in this list.
         """
-        if self._detyped is not None and not self._overlay_stack:
-            return self._detyped
+        # read the shared cache once: another thread may invalidate it
+        # (set it to None) between a check and a second read
+        detyped = self._detyped
+        if detyped is not None and not self._overlay_stack:
+            return detyped
         ctx = {}
         items = dict(self._d)
         # Apply overlay values on top (most recent overlay wins)
